@@ -119,6 +119,9 @@ func run(prop string, ck checks.Check, cfg load.Config, tier string, noEv bool) 
 	ck.Fn(cx, r)
 	if tier == "thorough" && !noEv {
 		r.Controls = checks.RunControls(prop)
+		if cfg.GOARCH == "" {
+			checks.RunOtherArch(prop, r)
+		}
 	}
 	return r.Finish()
 }
